@@ -21,10 +21,10 @@
    before fix 59bbd7c, now sorted: C19_sorted_str_perm), is NOT order free: C19_list_of_str_set_refuted (known finding,
    reproduced on the real code under two hash seeds by every run of the check). *)
 From Coq Require Import ZArith List String Bool Permutation.
-From Model Require Import PyBase Graph Determinism DeterminismKeep.
+From Model Require Import PyBase Graph Determinism DeterminismKeep DeterminismAlias.
 From Model Require Morgan Fingerprint Rings Iso.
-From Gen Require Import SetAudit CacheKeys.
-From Proofs Require Import DeterminismProofs DeterminismExt DeterminismRings DeterminismKeepProofs.
+From Gen Require Import SetAudit CacheKeys CacheAlias.
+From Proofs Require Import DeterminismProofs DeterminismExt DeterminismRings DeterminismKeepProofs DeterminismAliasProofs DeterminismAliasMore.
 From Proofs Require MorganProofs FingerprintProofs RingsProofs IsoLazyProofs.
 Import ListNotations.
 Open Scope list_scope.
@@ -443,6 +443,112 @@ Theorem C19_partial_flush_keywords_known :
   forallb (fun c => existsb (String.eqb (snd c)) known_flush_keywords) partial_flush_calls = true.
 Proof. exact partial_flush_keywords_known. Qed.
 Print Assumptions C19_partial_flush_keywords_known.
+
+(* ---- round 4: cached values taken as working variables (Model.DeterminismAlias) ----
+   A body may start from the cached value of ANOTHER attribute and update its working variable in place (MoleculeStereo._chiral_morgan:
+   `morgan = self.atoms_order.copy()` ... `morgan[n] = -morgan[n]`).  If every such body binds a COPY, every history of reads of plain and
+   derived attributes, edits and flushes returns what a cache-free copy returns - for all attribute bodies, step lists and histories. *)
+Theorem C19_alias_copy_transparent : forall (S K V : Type) (keqb : K -> K -> bool), (forall a b, keqb a b = true <-> a = b) ->
+  forall (base : K -> S -> V) (spec : K -> option (@derived S K V)),
+  (forall k d, spec k = Some d -> d_copied d = true /\ spec (d_src d) = None) ->
+  forall ops s c, acache_ok keqb base spec s c ->
+  run_alias keqb base spec s c ops = run_alias_uncached base spec s ops.
+Proof. exact @alias_copy_transparent. Qed.
+Print Assumptions C19_alias_copy_transparent.
+
+Theorem C19_alias_cached_equals_copy : forall (S K V : Type) (keqb : K -> K -> bool), (forall a b, keqb a b = true <-> a = b) ->
+  forall (base : K -> S -> V) (spec : K -> option (@derived S K V)),
+  (forall k d, spec k = Some d -> d_copied d = true /\ spec (d_src d) = None) ->
+  forall ops s c, acache_ok keqb base spec s c ->
+  run_alias keqb base spec s c ops = run_alias keqb base spec s [] ops.
+Proof. exact @alias_cached_equals_copy. Qed.
+Print Assumptions C19_alias_cached_equals_copy.
+
+(* the general discipline: a body may also bind the cache entry ITSELF as long as no step updates it in place (the 46 read-only aliases of the
+   audited files: Gen.CacheAlias.read_only_aliases); copies may be updated freely *)
+Theorem C19_alias_discipline_transparent : forall (S K V : Type) (keqb : K -> K -> bool), (forall a b, keqb a b = true <-> a = b) ->
+  forall (base : K -> S -> V) (spec : K -> option (@derived S K V)),
+  (forall k d, spec k = Some d -> spec (d_src d) = None /\ (d_copied d = true \/ no_inplace (d_steps d) = true)) ->
+  forall ops s c, acache_ok keqb base spec s c ->
+  run_alias keqb base spec s c ops = run_alias_uncached base spec s ops.
+Proof. exact @alias_discipline_transparent. Qed.
+Print Assumptions C19_alias_discipline_transparent.
+
+(* the copy is NECESSARY: a body that binds the cache entry itself and really changes it in place is observable by reading the derived
+   attribute and then its source (what the first run of the isolated-read oracle shows on the real code when the copy is removed) *)
+Theorem C19_alias_in_place_observable : forall (S K V : Type) (keqb : K -> K -> bool), (forall a b, keqb a b = true <-> a = b) ->
+  forall (base : K -> S -> V) (spec : K -> option (@derived S K V)) s k d,
+  spec k = Some d -> d_copied d = false -> spec (d_src d) = None -> k <> d_src d ->
+  snd (steps_shared s (base (d_src d) s) true (base (d_src d) s) (d_steps d)) <> base (d_src d) s ->
+  run_alias keqb base spec s [] [ARead k; ARead (d_src d)] <> run_alias_uncached base spec s [ARead k; ARead (d_src d)].
+Proof. exact @alias_in_place_observable. Qed.
+Print Assumptions C19_alias_in_place_observable.
+
+(* REGENERATED from the source on every run (tools/gen_cachealias.py -> Gen.CacheAlias): how _chiral_morgan binds its working variable.
+   With the start mode of the CURRENT source, whatever the attribute bodies and the steps compute, every history is transparent *)
+Theorem C19_chiral_morgan_start_is_copy : chiral_morgan_start = ("atoms_order"%string, true).
+Proof. exact chiral_morgan_start_is_copy. Qed.
+Print Assumptions C19_chiral_morgan_start_is_copy.
+
+Theorem C19_chiral_morgan_transparent : forall (S V : Type) (base : string -> S -> V) (steps : list (@step S V)) ops s,
+  run_alias String.eqb base (chiral_spec chiral_morgan_start steps) s [] ops =
+  run_alias_uncached base (chiral_spec chiral_morgan_start steps) s ops.
+Proof. exact @chiral_morgan_transparent. Qed.
+Print Assumptions C19_chiral_morgan_transparent.
+
+(* in the 63 audited files no name bound to a cache entry itself (and no cache entry directly) is updated in place; names bound to cache
+   entries exist (read-only use), and the one working variable that is updated in place is the copy in _chiral_morgan *)
+Theorem C19_no_cached_value_updated_in_place :
+  mutated_aliases = [] /\ read_only_aliases <> [] /\
+  In ("chython/algorithms/stereo.py", "MoleculeStereo._chiral_morgan", "morgan", "atoms_order")%string working_copies.
+Proof. exact (conj no_mutated_aliases (conj read_only_aliases_exist chiral_morgan_is_a_working_copy)). Qed.
+Print Assumptions C19_no_cached_value_updated_in_place.
+
+(* the faithful model of the same body WITHOUT the copy (`morgan = self.atoms_order`): after _chiral_morgan was read, atoms_order returns
+   the dict with the rank of atom 2 negated; and the same history with the copy *)
+Theorem C19_alias_without_copy_refuted :
+  run_alias String.eqb ex_base (chiral_spec ("atoms_order"%string, false) ex_steps) tt [] [ARead chiral_key; ARead "atoms_order"%string]
+  <> run_alias_uncached ex_base (chiral_spec ("atoms_order"%string, false) ex_steps) tt [ARead chiral_key; ARead "atoms_order"%string]
+  /\ nth 1 (run_alias String.eqb ex_base (chiral_spec ("atoms_order"%string, false) ex_steps) tt [] [ARead chiral_key; ARead "atoms_order"%string]) []
+     = [(2, -1); (4, 1); (1, 2); (5, 2); (3, 3); (6, 3)].
+Proof. exact alias_without_copy_refuted. Qed.
+Print Assumptions C19_alias_without_copy_refuted.
+
+Theorem C19_alias_with_copy_example :
+  run_alias String.eqb ex_base (chiral_spec chiral_morgan_start ex_steps) tt [] [ARead chiral_key; ARead "atoms_order"%string; ARead chiral_key]
+  = [[(2, 2); (4, 3); (1, 5); (5, 5); (3, 7); (6, 7)]; ex_ranks; [(2, 2); (4, 3); (1, 5); (5, 5); (3, 7); (6, 7)]].
+Proof. exact alias_with_copy_example. Qed.
+Print Assumptions C19_alias_with_copy_example.
+
+(* TRANSLATED from the source on every run (statement by statement, fail closed): the three loops of _chiral_morgan that update the working
+   variable in place (`for group in atoms_groups / cis_trans_groups / allenes_groups: for n in group[:len(group) // 2]: morgan[n] = -morgan[n]`).
+   The translation IS the step the model and the correspondence use: the ranks of the first half of every group negated, in this order *)
+Theorem C19_chiral_inplace_is_model : forall (X : Type) ag (cg : list (list (Z * X))) lg w,
+  chiral_inplace ag cg lg w = negate_seq (halves ag ++ map fst (halves cg) ++ halves lg) w.
+Proof. exact chiral_inplace_is_model. Qed.
+Print Assumptions C19_chiral_inplace_is_model.
+
+(* what the translated loops preserve, for all group lists and dicts: no key is added, dropped or moved (the insertion order of the working dict,
+   which every later iteration over it follows, stays the one of atoms_order); only the listed atoms change their rank; every rank keeps its absolute value *)
+Theorem C19_chiral_inplace_keeps_keys : forall (X : Type) ag (cg : list (list (Z * X))) lg w,
+  map fst (chiral_inplace ag cg lg w) = map fst w.
+Proof. exact chiral_inplace_keeps_keys. Qed.
+Print Assumptions C19_chiral_inplace_keeps_keys.
+
+Theorem C19_chiral_inplace_only_listed : forall (X : Type) ag (cg : list (list (Z * X))) lg w k,
+  ~ In k (halves ag ++ map fst (halves cg) ++ halves lg) -> zget (chiral_inplace ag cg lg w) k = zget w k.
+Proof. exact chiral_inplace_only_listed. Qed.
+Print Assumptions C19_chiral_inplace_only_listed.
+
+Theorem C19_chiral_inplace_keeps_abs : forall (X : Type) ag (cg : list (list (Z * X))) lg w,
+  map (fun kv : Z * Z => Z.abs (snd kv)) (chiral_inplace ag cg lg w) = map (fun kv : Z * Z => Z.abs (snd kv)) w.
+Proof. exact chiral_inplace_keeps_abs. Qed.
+Print Assumptions C19_chiral_inplace_keeps_abs.
+
+Theorem C19_chiral_inplace_example :
+  chiral_inplace [[2; 4]] [[(7, 8); (9, 10)]] [[5]] [(2, 1); (4, 1); (7, 3); (9, 3); (5, 6)] = [(2, -1); (4, 1); (7, -3); (9, 3); (5, 6)].
+Proof. exact chiral_inplace_example. Qed.
+Print Assumptions C19_chiral_inplace_example.
 
 (* the invariant is not for free: a mutation without flush breaks it *)
 Theorem C19_stale_without_flush :
